@@ -68,12 +68,12 @@ def foldCarry16 (x : Nat) : Nat := x % 65536 + x / 65536
 def stdSum16 (b : Bytes) (skipWord : Nat) : Nat → Nat → Nat
   | 0, acc => acc
   | fuel+1, acc =>
-    let i := b.size / 2 - (fuel + 1)
+    let i := (b.size + 1) / 2 - (fuel + 1)
     let w := if i = skipWord ∨ i = skipWord + 1 then 0 else le16 b (2 * i)
     stdSum16 b skipWord fuel (foldCarry16 (acc + w))
 def stdPeChecksum (b : Bytes) : Nat :=
   let skip := (eLfanew b + 24 + 64) / 2
-  let s := stdSum16 b skip (b.size / 2) 0
+  let s := stdSum16 b skip ((b.size + 1) / 2) 0      -- every 16-bit word, the last one zero extended
   let s := foldCarry16 (foldCarry16 s)
   (s + b.size) % 4294967296
 
